@@ -46,6 +46,18 @@ pub struct Server {
     /// keep recorded buffers (C03) or only count them
     pub keep_wire: bool,
     pub wire_bytes: StdMutex<u64>,
+    /// what the most recent write request carried, per log: (rewind target, commits of the patch)
+    pub last_carried: StdMutex<Vec<Carried>>,
+}
+
+/// The events one request asked the server to append to one log.
+#[derive(Clone, Debug)]
+pub struct Carried {
+    pub device: usize,
+    pub kind: &'static str,
+    pub log: vmodel::logs::LogId,
+    pub rewind_to: Option<[u8; 32]>,
+    pub commits: Vec<[u8; 32]>,
 }
 
 impl Server {
@@ -62,7 +74,7 @@ impl Server {
             BackendTarget::FileSystem(paths.clone())
         };
         let backend = Backend::new(paths, target.clone());
-        Ok(Arc::new(Server { backend: Arc::new(RwLock::new(backend)), dir: dir.to_path_buf(), target, wire: StdMutex::new(vec![]), keep_wire: false, wire_bytes: StdMutex::new(0) }))
+        Ok(Arc::new(Server { backend: Arc::new(RwLock::new(backend)), dir: dir.to_path_buf(), target, wire: StdMutex::new(vec![]), keep_wire: false, wire_bytes: StdMutex::new(0), last_carried: StdMutex::new(vec![]) }))
     }
 
     pub async fn account(&self, account_id: &AccountId) -> Option<Arc<RwLock<ServerStorage>>> {
@@ -176,6 +188,30 @@ impl SyncClient for LoopbackClient {
     async fn sync(&self, packet: SyncPacket) -> Result<SyncPacket, Self::Error> {
         self.sched.gate(self.device, "sync").await;
         let packet = self.wire("sync", "request", packet).await?;
+        {
+            use sos_sync::MaybeDiff;
+            use vmodel::logs::LogId;
+            let mut carried = vec![];
+            let mut push = |log: LogId, commits: Vec<[u8; 32]>| carried.push(Carried { device: self.device, kind: "sync", log, rewind_to: None, commits });
+            if let Some(MaybeDiff::Diff(d)) = &packet.diff.identity {
+                push(LogId::Identity, d.patch.iter().map(|r| r.commit().0).collect());
+            }
+            if let Some(MaybeDiff::Diff(d)) = &packet.diff.account {
+                push(LogId::Account, d.patch.iter().map(|r| r.commit().0).collect());
+            }
+            if let Some(MaybeDiff::Diff(d)) = &packet.diff.device {
+                push(LogId::Device, d.patch.iter().map(|r| r.commit().0).collect());
+            }
+            if let Some(MaybeDiff::Diff(d)) = &packet.diff.files {
+                push(LogId::Files, d.patch.iter().map(|r| r.commit().0).collect());
+            }
+            for (id, md) in &packet.diff.folders {
+                if let MaybeDiff::Diff(d) = md {
+                    push(LogId::Folder(*id), d.patch.iter().map(|r| r.commit().0).collect());
+                }
+            }
+            *self.server.last_carried.lock().unwrap() = carried;
+        }
         let account = self.storage().await?;
         let (packet, _outcome) = {
             let mut writer = account.write().await;
@@ -212,6 +248,18 @@ impl SyncClient for LoopbackClient {
     async fn patch(&self, request: PatchRequest) -> Result<PatchResponse, Self::Error> {
         self.sched.gate(self.device, "patch").await;
         let req = self.wire("patch", "request", request).await?;
+        {
+            use sos_core::events::EventLogType;
+            use vmodel::logs::LogId;
+            let log = match req.log_type {
+                EventLogType::Identity => LogId::Identity,
+                EventLogType::Account => LogId::Account,
+                EventLogType::Device => LogId::Device,
+                EventLogType::Files => LogId::Files,
+                EventLogType::Folder(id) => LogId::Folder(id),
+            };
+            *self.server.last_carried.lock().unwrap() = vec![Carried { device: self.device, kind: "patch", log, rewind_to: req.commit.map(|c| c.0), commits: req.patch.iter().map(|r| r.commit().0).collect() }];
+        }
         let account = self.storage().await?;
         let (response, _outcome) = {
             let mut writer = account.write().await;
